@@ -86,10 +86,10 @@ def top : ACell :=
     insts := [⟨⟨S' "u1", none⟩, 0, 0, S' "NETLIST", S' "buf", S' "PRIMS",
                 [⟨⟨S' "INIT", none⟩, .str (S' "8'h00")⟩, ⟨⟨S' "w", some (S' "W x")⟩, .int (-3)⟩], false⟩,
               ⟨⟨S' "u2", some (S' "u[2]")⟩, 0, 0, S' "netlist", S' "Buf", S' "prims", [⟨⟨S' "keep", none⟩, .bool true⟩], false⟩],
-    nets := [⟨.bit (S' "n") (S' "n") 3, [.port 0 (some 2) (S' "A"), .inst 0 2 (some 1) (S' "D") (S' "U1")]⟩,
+    nets := [⟨.bit (S' "n") (S' "n") 3 3, [.port 0 (some 2) (S' "A"), .inst 0 2 (some 1) (S' "D") (S' "U1")]⟩,
              ⟨.scalar ⟨S' "s", some (S' "s net")⟩, [.port 1 none (S' "Y"), .inst 1 1 none (S' "O_2_") (S' "U2")]⟩,
-             ⟨.bit (S' "n") (S' "n") 1, [.port 0 (some 0) (S' "a"), .inst 0 0 none (S' "I") (S' "u1")]⟩,
-             ⟨.bit (S' "m") (S' "m") 0, [.inst 1 0 none (S' "i") (S' "u2")]⟩] }
+             ⟨.bit (S' "n") (S' "n") 1 7, [.port 0 (some 0) (S' "a"), .inst 0 0 none (S' "I") (S' "u1")]⟩,
+             ⟨.bit (S' "m") (S' "m") 0 0, [.inst 1 0 none (S' "i") (S' "u2")]⟩] }
 
 /-- a second cell of library `work`: instantiates `top` of the same library without `(libraryRef …)` -/
 def top2 : ACell :=
